@@ -13,8 +13,13 @@
 // The terminal receiver of consumer=recv deletes the heap operation state from inside the
 // completion call, so any touch of the operation state after completion is an ASan report.
 //
-// Case file:  case <id> term=<T> consumer=<recv|detached|sync> / endcase   (grammar: see parse())
-// Output per case: `sig ...` (probe), `recv ...`/`ret ...`, `count n`, `ledger ...`, `end ok`.
+// Case file:  case <id> term=<T> consumer=<recv|detached|sync> [static=1|2] [spre=1] / endcase   (grammar: see parse())
+// Output per case: `sig ...` (probe), `recv ...`/`ret ...`, `count n`, `xl ...` (C03s monitors), `ledger ...`, `end ok`.
+//
+// C03s: with -DSND_PURE / -DSND_REF the binary also has a STATICALLY TYPED builder (snd_static.hpp) used for cases
+// with `static=1` (pure catalogue: no erasure at all) resp. `static=2` (REF tier: any term, references preserved).
+// All binaries print the `xl` lines: exception ledger observations (`xl exc <where> alive|dead|null ...`), late
+// deliveries, hollow callables and `xl end` (tier, holes, exception ledger totals).
 #include "../e1_main.hpp"
 
 #include <pika/execution.hpp>
@@ -121,7 +126,9 @@ static xinfo inspect(std::exception_ptr const& ep)
         x.null = true;
         return x;
     }
-    void const* raw = *reinterpret_cast<void* const*>(&ep);    // libstdc++ layout
+    static_assert(sizeof(std::exception_ptr) == sizeof(void*), "libstdc++ layout of exception_ptr expected");
+    void const* raw = nullptr;
+    std::memcpy(&raw, &ep, sizeof raw);    // libstdc++ layout: the address of the exception object
     {
         std::lock_guard<std::mutex> g(XL().m);
         auto it = XL().live.find(raw);
